@@ -24,7 +24,7 @@ ASSUMPTIONS = ["mazes in which every row and column index occurs in some connect
 NSHARDS = {"quick": 16, "thorough": 16}
 MODES = ["AOTP_UT_rasterized", "AOTP_UT_uniform", "AOTP_CTT_indexed"]
 KINDS = ["LatticeMaze", "TargetedLatticeMaze", "SolvedMaze"]
-THRESHOLDS = {"quick": {"c07:rt:via-other-class": 1500, "c07:dataset-config-count-differs-from-list": 20, **{f"c07:rt:{m}:{k}:{f}": 20 for m in MODES for k in KINDS for f in ("list", "str")},
+THRESHOLDS = {"quick": {"c07:rt:via-other-class": 1500, "c07:retokenized-after-in-place-edit": 25, "c07:dataset-config-count-differs-from-list": 20, **{f"c07:rt:{m}:{k}:{f}": 20 for m in MODES for k in KINDS for f in ("list", "str")},
                         **{f"c07:rt:modular:{m}:{k}": 20 for m in MODES for k in KINDS},
                         "c07:grid>=11": 50, "c07:one-cell-solution": 20, "c07:two-cell-solution": 20, "c07:legacy-vs-modular": 400,
                         "c07:dataset-as_tokens": 100, "c07:mgs:None": 100, "c07:mgs:n": 100, "c07:mgs:50": 100}}
@@ -163,8 +163,30 @@ def run(ctx):
                 except Exception as ex:  # noqa: BLE001
                     import traceback
                     ctx.violation(f"{mech}/exception/{type(ex).__name__}", traceback.format_exc()[-1500:], case)
+            # the same object, tokenized again after one of its connections was changed in place: the tokens must describe the maze
+            # as it is now (the added edge keeps every row/column index in some connection)
+            if j % 4 == 1 and kind == "LatticeMaze":
+                free = [sl for sl in ref.lattice_edge_slots(n, n) if not maze.connection_list[sl]]
+                if free:
+                    sl = free[int(rng.integers(len(free)))]
+                    maze.connection_list[sl] = True
+                    cl2 = np.array(maze.connection_list, dtype=bool)
+                    ctx.tally("c07:retokenized-after-in-place-edit")
+                    for tname, tok in (("legacy", legacy), ("modular", modular)):
+                        mech = f"C07/roundtrip-after-in-place-edit/{tname}/{mode_name}"
+                        try:
+                            toks2 = maze.as_tokens(tok)
+                            back = cls.from_tokens(toks2, tok)
+                            ctx.ev()
+                            same_maze(ctx, back, cls, cl2, s, e, sol, kind, mech, dict(case, edited_slot=sl))
+                            el2, _rest = parse_stream(toks2, ctt)
+                            E2 = Graph(cl2).edges()
+                            ctx.check(len(el2) == len(E2) and set(el2) == E2, mech + "/adjacency-not-the-current-edge-set", lambda: f"{len(el2)} entries vs {len(E2)} edges", dict(case, edited_slot=sl))
+                        except Exception as ex:  # noqa: BLE001
+                            ctx.violation(f"{mech}/exception/{type(ex).__name__}", repr(ex)[:400], case)
+                    cl = cl2
             # legacy vs modular equivalence
-            if "legacy" in streams and "modular" in streams:
+            if "legacy" in streams and "modular" in streams and not (j % 4 == 1 and kind == "LatticeMaze"):
                 try:
                     el, rl = parse_stream(streams["legacy"], ctt)
                     em, rm = parse_stream(streams["modular"], ctt)
